@@ -17,6 +17,7 @@ if REPO not in sys.path:
     sys.path.insert(0, REPO)
 
 REGISTRY = {}  # prop -> list[Obligation]
+MAX_CLASSES = 400
 
 
 class Obligation:
@@ -143,10 +144,13 @@ def run_obligation(o: Obligation, seed=0):
         inputs_seen.update(E.inputs)
         for f in E.fails:
             key = (f.kind, f.label, f.site)
-            if key not in fails:
-                fails[key] = [f, 1]
+            d = fails.setdefault(key, {})
+            c = f.cls()
+            if c not in d:
+                if len(d) < MAX_CLASSES:
+                    d[c] = [f, 1]
             else:
-                fails[key][1] += 1
+                d[c][1] += 1
         unknowns.extend(E.unknowns)
         if o.validate and p.exact and not E.fails and (len(samples) < 4 or rng.random() < 0.02) and len(samples) < 12:
             asg = {k: str(Fraction(p.assign[k])) for k in E.inputs if k in p.assign}
@@ -168,7 +172,10 @@ def run_obligation(o: Obligation, seed=0):
     for asg, rec in samples:
         Ec = run_concrete(o, asg, seed)
         if Ec.fails:
-            val_errors.append(f"concrete run fails where the symbolic path passed: {Ec.fails[0].to_json()}")
+            # a failure of the real code on a path witness is a finding in its own right (e.g. dtype-level
+            # facts the object-array encoding cannot see); it is reported like any replayed counterexample
+            for cf in Ec.fails:
+                fails.setdefault((cf.kind, cf.label, cf.site), {}).setdefault(cf.cls(), [cf, 1])
             continue
         crec = [(l, [_tofloat(v) for v in vals]) for l, vals in Ec.record]
         if len(crec) != len(rec):
@@ -182,23 +189,34 @@ def run_obligation(o: Obligation, seed=0):
                 break
         validated += ok
 
-    # --- replay every distinct failure on the unpatched code
+    # --- replay every distinct failure (one per input class) on the unpatched code
     out_fails = []
-    for key, (f, count) in fails.items():
-        Ec = run_concrete(o, f.assignment, seed)
-        rep = None
-        for cf in Ec.fails:
-            if cf.kind == f.kind and (cf.label == f.label or f.label == "escaped" or cf.label == "escaped"):
-                rep = cf
-                break
-        if rep is None:
+    for key, classes in fails.items():
+        first = None
+        cls_res = {}
+        for c, (f, count) in classes.items():
+            Ec = run_concrete(o, f.assignment, seed)
+            rep = None
             for cf in Ec.fails:
-                if cf.label == f.label:
+                if cf.kind == f.kind and (cf.label == f.label or f.label == "escaped" or cf.label == "escaped"):
                     rep = cf
                     break
+            if rep is None:
+                for cf in Ec.fails:
+                    if cf.label == f.label:
+                        rep = cf
+                        break
+            cls_res[c] = dict(reproduced=rep is not None, assignment=f.assignment, paths=count,
+                              kind=(rep.kind if rep is not None else f.kind),
+                              site=((rep.site or f.site) if rep is not None else f.site),
+                              detail=(rep.detail if rep is not None else f.detail)[:400])
+            if first is None or (rep is not None and not first[1]):
+                first = (f, rep is not None, rep)
+        f, anyrep, rep = first
         j = f.to_json()
-        j["paths"] = count
-        j["reproduced"] = rep is not None
+        j["paths"] = sum(v[1] for v in classes.values())
+        j["reproduced"] = all(v["reproduced"] for v in cls_res.values())
+        j["classes"] = cls_res
         if rep is not None:
             j["concrete"] = rep.to_json()
             j["kind"] = rep.kind
@@ -208,9 +226,9 @@ def run_obligation(o: Obligation, seed=0):
     status = "proved"
     reasons = []
     if out_fails:
-        if any(j["reproduced"] for j in out_fails):
+        if any(cr["reproduced"] for j in out_fails for cr in j["classes"].values()):
             status = "violated"
-        if any(not j["reproduced"] for j in out_fails):
+        if any(not cr["reproduced"] for j in out_fails for cr in j["classes"].values()):
             reasons.append("a solver counterexample did not reproduce on the real code (encoding or stand-in wrong?)")
             if status != "violated":
                 status = "error"
@@ -293,17 +311,18 @@ def load_known():
     return out
 
 
-def match_known(known, prop, oid, fail):
+def match_known(known, prop, oid, fail, cls):
+    """a failure is suppressed only if obligation, kind, label, site AND its input class are listed"""
     for k in known:
         if k.get("status") != "known" or k.get("property") != prop:
             continue
         if k.get("obligation") != oid:
             continue
-        if k.get("kind") and k["kind"] != fail["kind"]:
+        if k.get("kind") != fail["kind"] or k.get("label") != fail.get("label", ""):
             continue
-        if k.get("site") and k["site"] != fail.get("site", ""):
+        if k.get("site", "") != fail.get("site", ""):
             continue
-        if k.get("label") and k["label"] != fail.get("label", ""):
+        if "classes" in k and cls not in k["classes"]:
             continue
         return k
     return None
@@ -319,7 +338,7 @@ def write_replay(prop, res, fail, n):
     path = os.path.join(d, f"{safe}__{n}.json")
     with open(path, "w") as fh:
         json.dump(dict(property=prop, obligation=res["id"], kind=fail["kind"], label=fail["label"], site=fail.get("site", ""),
-                       detail=fail.get("concrete", fail)["detail"], assignment=fail["assignment"],
+                       detail=fail["detail"], assignment=fail["assignment"],
                        how="python check.py --replay <this file>  (runs the unpatched pyttb on these inputs)"), fh, indent=1)
     return path
 
@@ -398,30 +417,43 @@ def report(prop, tier, seed, results, wall, write=True):
     bad = []
     nrep = 0
     for r in results:
-        if r["status"] == "violated":
+        if r["status"] in ("violated", "error") and r["failures"]:
             for f in r["failures"]:
-                if not f["reproduced"]:
-                    continue
-                k = match_known(known, prop, r["id"], f)
-                if k is not None:
-                    knowns.append((r, f, k))
-                else:
+                newcls = []
+                matched = None
+                for c, cr in f["classes"].items():
+                    if not cr["reproduced"]:
+                        continue
+                    ff = dict(f, kind=cr["kind"], site=cr["site"])
+                    k = match_known(known, prop, r["id"], ff, c)
+                    if k is not None:
+                        matched = k
+                    else:
+                        newcls.append((c, cr))
+                if matched is not None:
+                    knowns.append((r, f, matched))
+                if newcls:
                     nrep += 1
-                    violations.append((r, f, write_replay(prop, r, f, nrep)))
-            if any(not f["reproduced"] for f in r["failures"]) and r["gating"]:
+                    c, cr = newcls[0]
+                    ff = dict(f, assignment=cr["assignment"], kind=cr["kind"], site=cr["site"], detail=cr["detail"])
+                    ff.pop("concrete", None)
+                    violations.append((r, ff, write_replay(prop, r, ff, nrep), len(newcls)))
+            if any(not cr["reproduced"] for f in r["failures"] for cr in f["classes"].values()) and r["gating"]:
                 bad.append(r)
         elif r["status"] in ("inconclusive", "error") and r["gating"]:
             bad.append(r)
     for r, f, k in knowns:
         print(f"KNOWN-FINDING: property={prop} {r['id']} {f['kind']} {f.get('site','')} -- {k.get('what','')}")
-    for r, f, path in violations:
+    for r, f, path, ncls in violations:
         print(f"VIOLATION property={prop} replay={path}")
-        print(f"   obligation {r['id']}: {f['kind']} at '{f['label']}' {f.get('site','')}: {f.get('concrete', f)['detail'][:300]}")
+        print(f"   obligation {r['id']}: {f['kind']} at '{f['label']}' {f.get('site','')}: {f['detail'][:300]} ({ncls} input class(es))")
     for r in bad:
         print(f"INCONCLUSIVE {r['id']}: {r['status']}: {'; '.join(str(x) for x in r['reasons'][:2])[:400]}")
         for f in r["failures"]:
-            if not f["reproduced"]:
-                print(f"   not reproduced: {f['kind']} at '{f['label']}' {f.get('site','')}: {f['detail'][:300]} | {json.dumps(f['assignment'])[:400]}")
+            for c, cr in f["classes"].items():
+                if not cr["reproduced"]:
+                    print(f"   not reproduced: {f['kind']} at '{f['label']}' {f.get('site','')}: {cr['detail'][:300]} | {json.dumps(cr['assignment'])[:400]}")
+                    break
     proved = sum(1 for r in results if r["status"] == "proved")
     gating = [r for r in results if r["gating"]]
     print(f"{prop} [{tier}] obligations={len(results)} proved={proved} violated={sum(1 for r in results if r['status']=='violated')} "
@@ -449,7 +481,7 @@ def write_evidence(prop, tier, seed, results, wall, nviol, knowns):
                             solver_queries=r["solver_queries"], solver_s=r["solver_s"], wall_s=r["wall_s"],
                             sample_path_condition=r["sample_pc"], reasons=r["reasons"][:2],
                             failures=[dict(kind=f["kind"], label=f["label"], site=f.get("site", ""), reproduced=f["reproduced"],
-                                           assignment=f["assignment"]) for f in r["failures"][:3]]))
+                                           assignment=f["assignment"], input_classes=len(f["classes"])) for f in r["failures"][:3]]))
     rungs = {}
     for r in results:
         for k, v in (r["rungs"] or {}).items():
